@@ -1,5 +1,5 @@
 """Which units and lemmas serve which property (DESIGN §4/§5)."""
-from . import sm, ps, ef, z, mainspec, dynrf, mainloop, io
+from . import sm, ps, ef, z, mainspec, dynrf, mainloop, io, leaf
 
 A_IDEAL = 'A-IDEAL: float/double arithmetic treated as real arithmetic, source literals exact (rounding not modelled)'
 A_SUMCOMM = 'L-SUMCOMM: interchange of finite double sums (column sums = 1 => total conserved) not machine-checked'
@@ -52,12 +52,14 @@ PROPERTIES = {
     },
     'C15': {
         'units': [sm.KickMapApplyTo, sm.FokkerPlanckApplyTo, sm.UpdateSM, sm.CalcCoefficiants],
+        'leaves': [leaf.FPApplyToLeaf, leaf.KickApplyToLeaf, leaf.PSxLeaf],
         'lemmas': [sm.lemmas_weights],
         'level': 'other',
         'claim': 'a tracked particle is displaced by minus the linearly interpolated offset (the displacement of the charge, by the k=1 moment lemma), every map keeps both '
                  'coordinates on the grid, the stochastic model is an Ornstein-Uhlenbeck step about the zero-energy bin; for every real position/offset (ideal arithmetic)',
         'assumptions': [A_IDEAL, A_LIB, DROPS, 'random draws are unconstrained reals', 'HDF5File::appendTracks index obligation is part of C17'],
-        'uncovered': ['statistical statement that an ensemble keeps mean and width (consequence of the OU step, not machine-checked)', 'NaN/inf inputs (ideal arithmetic has none)'],
+        'uncovered': ['statistical statement that an ensemble keeps mean and width (consequence of the OU step, not machine-checked)',
+                      'IEEE special values in KickMap::applyTo (FokkerPlanckMap::applyTo is covered bit-precisely by the CBMC leaf unit, grid sizes up to 64)'],
         'explanation': 'posts of KickMap::applyTo and FokkerPlanckMap::applyTo for all four tracking models',
         'technique': TECH,
     },
@@ -149,6 +151,7 @@ PROPERTIES = {
                                     ps.RulerCtor, ps.SimpsonWeights, ps.UpdateXProjection, ps.UpdateYProjection, ps.Integrate, ps.Normalize, ps.Average, ps.Variance, ps.Swap,
                                     ef.PadBunchProfiles, ef.WakePotential, ef.UpdateCSR,
                                     z.FreeSpaceCSRCalc, z.ResistiveWallCalc, z.ConstImpedanceCalc, z.ImpedanceAddAssign, mainspec.MainConfig],
+        'leaves': [leaf.UpperPow2Leaf, leaf.FPApplyToLeaf, leaf.KickApplyToLeaf, leaf.PSxLeaf],
         'lemmas': [],
         'level': 'other',
         'claim': 'every array subscript, pointer range (copy_n/fill_n/inner_product/FFT buffers), float-to-integer conversion, signed overflow, unsigned index product and division in the units under contract '
@@ -186,7 +189,7 @@ PROPERTIES = {
         'technique': TECH,
     },
     'C12': {
-        'units': [mainloop.MainLoop, ps.Integrate, ps.Variance, ps.UpdateYProjection, ps.UpdateXProjection, ef.UpdateCSR, sm.KickMapApply, sm.FokkerPlanckApply, sm.IdentityApply],
+        'units': [mainloop.MainLoop, ps.Integrate, ps.Variance, ps.UpdateYProjection, ps.UpdateXProjection, ef.UpdateCSR, sm.KickMapApply, sm.FokkerPlanckApply, sm.IdentityApply, dynrf.DynApply, dynrf.DynCalcKick],
         'lemmas': [],
         'level': 'other',
         'claim': 'one loop iteration maps the physics state (three grids, x-projection, wake offsets, tracked particles) to the same value whether or not the output block runs: proved on main by a relational invariant over event contracts; '
